@@ -25,11 +25,15 @@ TRUSTED = ["Spec.Quad.integral as the meaning of the integral: open 3-point Newt
            "each open cell (Lemmas/Bridge.lean, Props/C10Bridge.lean: tw_*_{rect,trap}_eq_lebesgue); no longer a trusted fact",
            "hand model of _auxiliary_funcs (validation, end-point replacement over the batch, xarray min/max skipna, "
            "Python builtin min/max) is tied by differential testing only",
-           "the frame of the public functions (gather_dimensions, apply_weights, mean) is outside C10: scores are compared "
-           "per forecast case with preserve_dims='all'"]
+           "the frame of the public functions (gather_dimensions, mean) is not modelled in Lean: the batches "
+           "band-end-points-vs-integral-spec / label-order-vs-integral-spec compare the result BY LABEL with the exact mean "
+           "(Fractions, in the harness) of the Lean Spec integrals over the reduced data dimensions; apply_weights is outside C10"]
 ASSUMPTIONS = ["forecasts / observations / end points are multiples of 1/2 or 1/4 of small magnitude (float + - * and comparisons "
                "exact); quotients by (b-a), (d-c), 3 compared to 1e-9", "NaN end points are not generated",
-               "fcst and obs carry the same coordinates in the same stored order (F11 belongs to C04)",
+               "regular batches: no coordinates (positional); batches band-end-points-vs-integral-spec / label-order-vs-integral-spec: "
+               "labelled forecasts / observations / end-point arrays in different stored orders and dimension orders, end points along a "
+               "'band' dimension the data lack; end-point ARRAYS whose labels are stored in another order than the data or than another "
+               "end-point array raise ValueError on the unchanged tree (candidate finding C10-EPORDER, notes/C10.md O4)",
                "float rounding is not modelled",
                "storage dtypes: forecasts / observations stored as int64 / int32 / int16 / int8 / float32 / mixed hold values exactly "
                "representable in the dtype; the model value is that exact number (int64 7 = 7, float32 0.5 = 1/2); magnitudes <= 7 "
@@ -50,15 +54,21 @@ MANIFEST = dict(
          "code by the translator plus a differential check of the helpers, the consistent kernels and the whole tw_* pipeline "
          "(hand model of _auxiliary_funcs) and an independent oracle: Lean Spec integrals evaluated exhaustively on a 7-point lattice "
          "for x, y and all 114 admissible finite/infinite end-point choices, quadrature of the real murphy_score values, "
-         "partition-of-unity / weight-one / non-negativity relations between implementation runs, scalar vs array vs mixed end points.",
+         "partition-of-unity / weight-one / non-negativity relations between implementation runs, scalar vs array vs mixed end points; "
+         "end points as arrays along a 'band' dimension the data lack (several weights in one call), along data dimensions, 2-D and "
+         "mixed with scalars, for every tw_* function with default dims, reduce_dims / preserve_dims lists and 'all' (the result keeps "
+         "the band dimension, every band = exact mean of the Lean integrals for that band's end points, a weight-1 band = the "
+         "unweighted score), and labelled forecasts / observations / end points in different stored orders and dimension orders, "
+         "compared by label.",
     note="Trusted: Lean kernel; propext/Classical.choice/Quot.sound; py2lean translator; SV.Fl (IEEE minus rounding, overflow, signed "
          "zero); the integral is Spec.Quad.integral = open 3-point Newton-Cotes rule on each cell of the kink-complete grid (exact "
          "for piecewise cubics) and is proved equal to Mathlib's intervalIntegral of weight x elementary score (Props/C10Bridge.lean). Modelled and only compared (not proved): _auxiliary_funcs "
          "(validation, replacement of +-inf by min/max(data, other end) -+ 1 over the batch, array / mixed end points) - the "
          "theorems hold for ANY finite replacement beyond the two data points; that the replacement is beyond the data is "
          "proved for the hand model of the rectangular branch (endpoint_replacement_model_rect) and checked by the differential "
-         "harness for both branches. Not modelled: gather_dimensions / apply_weights / mean (scores compared per case with "
-         "preserve_dims='all'), NaN end points, coordinate alignment (C04), float rounding (inputs are dyadic, quotients to 1e-9). "
+         "harness for both branches. Not modelled in Lean: gather_dimensions / mean (the harness averages the exact Lean integrals "
+         "over the reduced data dimensions itself), apply_weights, NaN end points, float rounding (inputs are dyadic, quotients to "
+         "1e-9); coordinate alignment is exercised by label (batch label-order-vs-integral-spec; known candidate C10-EPORDER). "
          "A `<` <-> `<=` flip at a kink where the pieces agree is recognised as harmless by the tie lemmas.",
     technique="Lean 4 theorems over translator-regenerated definitions (generic cell-wise antiderivative calculus) + differential "
               "correspondence + exhaustive lattice oracle against the Lean Spec",
@@ -68,8 +78,11 @@ RULE = ("cases (x, y, weight shape, end points, alpha, huber parameter): exhaust
         "dyadic batches with 50% of values copied from an end point or from the other operand, end points as scalars or as "
         "arrays over one or both dimensions; typed batches: the same with forecasts / observations stored as int64 / int32 / int16 / "
         "int8 / float32 / mixed pairs (integers 0..6 x 8 non-integer weights exhaustively, then random, end points on the quarter "
-        "grid, integer-valued ones also as Python int / int64 arrays); distinct = distinct (x, y, shape, end points, parameters, "
-        "storage dtypes); non-trivial = x, y not NaN and not in the malformed stream")
+        "grid, integer-valued ones also as Python int / int64 arrays); layout batches: per run every (function, way of naming the "
+        "kept dimensions) with end points along a band dimension (all / mixed with scalars / with data-dimension arrays / 2-D), and "
+        "every function with forecasts and observations in different stored label orders and dimension orders against scalar, band, "
+        "data-dimension (common order / own order) end points; distinct = distinct (x, y, shape, end points, parameters, "
+        "storage dtypes, layout); non-trivial = x, y not NaN and not in the malformed stream")
 
 NAN = float("nan")
 INF = float("inf")
@@ -1181,6 +1194,406 @@ def oracle_int_range(ctx, boost):
                       extra=dtype_extra(cfg, dt, dt), tagger=tagger)
 
 
+# ------------------------------------------------------------------------------------------------ labelled layouts
+# Interval end points given as ARRAYS along a dimension the data LACK ("band": several threshold weights in one call), along
+# data dimensions, 2-D (band x data) and mixed with scalars, with the frame of the public functions (default dims,
+# reduce_dims / preserve_dims lists, 'all'); forecasts, observations and end-point arrays holding the same coordinate
+# labels in different STORED orders and different DIMENSION orders.  Everything is compared BY LABEL with the exact mean
+# (Fractions) of the Lean Spec integrals of each band's own end points.
+CANON_DIMS = ("s", "k", "band")
+DATA_DIMS = ("s", "k")
+LAYOUT_MODES = ["default", "reduce-list", "preserve-list", "reduce-all", "preserve-all"]
+LAYOUT_END_CLASSES = ["scalar", "band", "data-aligned", "data-conflict"]
+LAYOUT_DEFECT = "C10-endpoint-label-order"
+LAYOUT_BATCH_BAND = "band-end-points-vs-integral-spec"
+LAYOUT_BATCH_ORDER = "label-order-vs-integral-spec"
+LABEL_MENU = {"s": [[10, 11, 12], ["a", "b", "c"], [3, 1, 2]], "k": [[0, 1, 2, 3], [7, 3, 5, 4], ["w", "x", "y", "z"]],
+              "band": [["lo", "hi", "all"], [0, 1, 2], [5, 2, 9]]}
+
+
+def fresh(name):
+    """an equal but not identical str object (exposes identity comparisons of dimension names)"""
+    return "".join(list(name))
+
+
+def nested_map(f, v):
+    return [nested_map(f, u) for u in v] if isinstance(v, list) else f(v)
+
+
+def lay_array(spec, labels, coords):
+    """spec = {"dims": stored dimension order, "values": nested protocol strings in CANONICAL order (dims sorted as s, k, band;
+    labels in the order of `labels`), "perm": per dimension the stored order of the labels}; dims == [] is a scalar"""
+    vals = nested_map(lambda t: float(core.parse_fl(t)), spec["values"])
+    if not spec["dims"]:
+        return vals
+    cd = [d for d in CANON_DIMS if d in spec["dims"]]
+    a = xr.DataArray(np.array(vals, dtype=float), dims=cd, coords={d: list(labels[d]) for d in cd} if coords else None)
+    if coords:
+        a = a.isel({d: list(spec["perm"][d]) for d in cd})
+    return a.transpose(*spec["dims"])
+
+
+def lay_canon(spec, sizes):
+    """values of one array broadcast to the canonical shape (S, K, B)"""
+    vals = np.array(nested_map(lambda t: float(core.parse_fl(t)), spec["values"]), dtype=float)
+    shp = tuple(sizes[d] if d in spec["dims"] else 1 for d in CANON_DIMS)
+    return np.broadcast_to(vals.reshape(shp), tuple(sizes[d] for d in CANON_DIMS))
+
+
+def lay_sizes(case):
+    has_band = any("band" in e["dims"] for e in case["ends"])
+    return {"s": len(case["labels"]["s"]), "k": len(case["labels"]["k"]), "band": len(case["labels"]["band"]) if has_band else 1}, has_band
+
+
+def lay_kwargs(case):
+    mode, arg = case["mode"], case.get("dims_arg")
+    if mode == "default":
+        return {}
+    if mode == "reduce-list":
+        return {"reduce_dims": [fresh(d) for d in arg]}
+    if mode == "preserve-list":
+        return {"preserve_dims": [fresh(d) for d in arg]}
+    if mode == "reduce-all":
+        return {"reduce_dims": fresh("all")}
+    return {"preserve_dims": fresh("all")}
+
+
+def lay_kept(case):
+    """the data dimensions the result must keep"""
+    mode, arg = case["mode"], case.get("dims_arg")
+    if mode in ("default", "reduce-all"):
+        return []
+    if mode == "reduce-list":
+        return [d for d in DATA_DIMS if d not in arg]
+    if mode == "preserve-list":
+        return [d for d in DATA_DIMS if d in arg]
+    return list(DATA_DIMS)
+
+
+def lay_call(case):
+    import scores.continuous as sc
+    labels, coords, name = case["labels"], case["coords"], case["function"]
+    f, o = lay_array(case["fcst"], labels, coords), lay_array(case["obs"], labels, coords)
+    ends = [lay_array(e, labels, coords) for e in case["ends"]]
+    one, pos = ((ends[0], ends[1]), None) if case["shape"] == "rect" else ((ends[1], ends[2]), (ends[0], ends[3]))
+    args = [f, o]
+    if name in ("tw_quantile_score", "tw_expectile_score"):
+        args.append(float(Fraction(case["alpha"])))
+    if name == "tw_huber_loss":
+        args.append(float(Fraction(case["huber"])))
+    with np.errstate(all="ignore"):
+        return getattr(sc, name)(*args, interval_where_one=one, interval_where_positive=pos, **lay_kwargs(case))
+
+
+def lay_ops(case):
+    """Lean ops of one case: a c10.spec per (s, k, band) and, if some band has weight 1 everywhere, a c10.std per (s, k)"""
+    sizes, _ = lay_sizes(case)
+    fc, ob = lay_canon(case["fcst"], sizes), lay_canon(case["obs"], sizes)
+    ends = np.stack([lay_canon(e, sizes) for e in case["ends"]], axis=-1)
+    spec, std = [], []
+    for i in range(sizes["s"]):
+        for j in range(sizes["k"]):
+            for b in range(sizes["band"]):
+                spec.append({"op": "c10.spec", "args": {"shape": case["shape"], "ends": [S(v) for v in ends[i, j, b]], "x": S(fc[i, j, b]),
+                                                        "y": S(ob[i, j, b]), "alpha": case["alpha"], "huber": case["huber"]}})
+            std.append({"op": "c10.std", "args": {"x": S(fc[i, j, 0]), "y": S(ob[i, j, 0]), "alpha": case["alpha"], "huber": case["huber"]}})
+    one_bands = [b for b in range(sizes["band"]) if np.all(np.isinf(ends[:, :, b, :]))]
+    return spec, (std if one_bands else []), one_bands
+
+
+def lay_mean(arr, axes):
+    """exact mean of an object array of Fractions over the given axes (kept axes stay)"""
+    for ax in sorted(axes, reverse=True):
+        n = arr.shape[ax]
+        arr = np.sum(arr, axis=ax) / Fraction(n)
+    return arr
+
+
+def lay_conflict_dims(case):
+    """dimensions carried by at least one end-point ARRAY on which the arrays of the call (forecasts, observations, end points)
+    store the same labels in different orders"""
+    if not case["coords"]:
+        return []
+    out = []
+    for d in CANON_DIMS:
+        if not any(d in e["dims"] for e in case["ends"]):
+            continue
+        perms = {tuple(a["perm"][d]) for a in [case["fcst"], case["obs"]] + case["ends"] if d in a["dims"]}
+        if len(perms) > 1:
+            out.append(d)
+    return out
+
+
+def lay_aligned(case):
+    """the same labelled values with every dimension that an end-point array carries stored in the order of `labels` by
+    every array (other dimensions keep their stored orders)"""
+    dims = lay_conflict_dims(case)
+    fix = lambda a: dict(a, perm={d: (sorted(p) if d in dims else p) for d, p in a["perm"].items()}) if a["dims"] else a
+    return dict(case, fcst=fix(case["fcst"]), obs=fix(case["obs"]), ends=[fix(e) for e in case["ends"]])
+
+
+def lay_check(ctx, batch, case, spec_rows, std_rows, one_bands, defect_tag=True):
+    """True iff a failure was recorded.  Expected: result dims = kept data dims (+ band); per label the exact mean over the
+    reduced data dimensions of the Lean integrals for that band's end points; a weight-1 band = mean unweighted score."""
+    name = case["function"]
+    sizes, has_band = lay_sizes(case)
+    shp = (sizes["s"], sizes["k"], sizes["band"])
+    E = np.empty(shp, dtype=object)
+    E.ravel()[:] = [core.parse_fl(r[name]) for r in spec_rows]
+    kept = lay_kept(case)
+    red = [DATA_DIMS.index(d) for d in DATA_DIMS if d not in kept]
+    exp = np.asarray(lay_mean(E, red), dtype=object)          # shape: kept data dims + (B,)
+    if not has_band:
+        exp = exp[..., 0]
+    exp_dims = kept + (["band"] if has_band else [])
+    tags = {"function": name, "shape": case["shape"], "mode": case["mode"], "class": case["class"],
+            "band": "yes" if has_band else "no", "coords": "yes" if case["coords"] else "no"}
+    theorem = THEOREM_OF[name].replace("rect", case["shape"])
+    try:
+        res = lay_call(case)
+    except Exception as ex:  # noqa: BLE001
+        t = dict(tags)
+        if defect_tag and isinstance(ex, ValueError) and "join='exact'" in str(ex) and lay_conflict_dims(case):
+            # candidate defect (notes/C10.md O4) only if the same labelled values, with the end-point dimensions stored in one
+            # common order, give no failure at all
+            sub = core.Ctx("C10", "quick", 0)
+            if not lay_check(sub, batch, lay_aligned(case), spec_rows, std_rows, one_bands, defect_tag=False):
+                t.update({"defect": LAYOUT_DEFECT, "conflict_dims": "+".join(lay_conflict_dims(case))})
+        ctx.fail(batch, "property", name, "exception:" + type(ex).__name__, case, observed=f"{type(ex).__name__}: {ex}"[:200],
+                 expected="values by label", tags=t)
+        return True
+    if set(res.dims) != set(exp_dims):
+        ctx.fail(batch, "property", name, "result-dims", case,
+                 observed={"dims": list(res.dims), "values": np.asarray(res.values, dtype=float).tolist()},
+                 expected={"dims": exp_dims, "values (labels in the order of `labels`)": nested_map(S, exp.tolist())}, tags=tags, theorem=theorem)
+        return True
+    try:
+        r = res.sel({d: list(case["labels"][d]) for d in exp_dims}) if case["coords"] else res
+        got = np.asarray(r.transpose(*exp_dims).values, dtype=float)
+    except Exception as ex:  # noqa: BLE001
+        ctx.fail(batch, "property", name, "result-labels", case, observed=f"{type(ex).__name__}: {ex}"[:200],
+                 expected={d: case["labels"][d] for d in exp_dims}, tags=tags)
+        return True
+    if got.shape != np.shape(exp):
+        ctx.fail(batch, "property", name, "result-shape", case, observed=list(got.shape), expected=list(np.shape(exp)), tags=tags)
+        return True
+    for idx in np.ndindex(*got.shape):
+        if not core.close(got[idx], exp[idx]):
+            where = {d: case["labels"][d][i] for d, i in zip(exp_dims, idx)}
+            ctx.fail(batch, "property", name, "value", case, observed={"at": where, "value": float(got[idx])},
+                     expected={"at": where, "value": S(exp[idx])}, tags=tags, theorem=theorem)
+            return True
+    if one_bands and std_rows:
+        U = np.empty(shp[:2], dtype=object)
+        U.ravel()[:] = [core.parse_fl(r[name]) for r in std_rows]
+        ustd = np.asarray(lay_mean(U, red), dtype=object)
+        for b in one_bands:
+            gb = got[..., b] if has_band else got
+            for idx in np.ndindex(*gb.shape):
+                if not core.close(gb[idx], ustd[idx]):
+                    where = dict({d: case["labels"][d][i] for d, i in zip(kept, idx)}, band=case["labels"]["band"][b] if has_band else "-")
+                    ctx.fail(batch, "property", name, "weight-one-band-differs-from-unweighted", case,
+                             observed={"at": where, "value": float(gb[idx])},
+                             expected={"at": where, "value": S(ustd[idx])}, tags=tags,
+                             theorem="weight_one_" + name)
+                    return True
+    return False
+
+
+def lay_perm(rng, n, nonid=False):
+    p = list(range(n))
+    if n < 2:
+        return p
+    for _ in range(8):
+        rng.shuffle(p)
+        if not nonid or p != sorted(p):
+            break
+    if nonid and p == sorted(p):
+        p = p[1:] + p[:1]
+    return p
+
+
+def gen_layout_ends(rng, shape, forms, sizes):
+    """forms: per end point the CANONICAL dims of the array ([] = scalar).  Values: increasing at every (s, k, band), finite
+    values multiples of 1/2; -inf / +inf on a whole band (both end points of a trapezoid side together) or as scalars;
+    if every end point varies with band, often one band with weight 1 everywhere.  Returns canonical nested lists."""
+    n = len(forms)
+    Bn = sizes["band"]
+    all_band = all("band" in f for f in forms)
+    if all_band:       # an independent weight per band
+        base = [[2.0 * v for v in draw_sorted(rng, n, lo=-3, hi=5, den=1)] for _ in range(Bn)]
+    else:              # common end points 4 apart; the band-dependent ones moved by at most 1
+        common = [4.0 * v for v in draw_sorted(rng, n, lo=-2, hi=3, den=1)]
+        base = [[common[i] + (rng.choice([-1.0, -0.5, 0.0, 0.5, 1.0]) if "band" in forms[i] else 0.0) for i in range(n)]
+                for _ in range(Bn)]
+    sides = [([0], -INF), ([1], INF)] if shape == "rect" else [([0, 1], -INF), ([2, 3], INF)]
+    for cols, val in sides:
+        if all("band" in forms[i] for i in cols):
+            for b in range(Bn):
+                if rng.random() < 0.3:
+                    for i in cols:
+                        base[b][i] = val
+        elif all(not forms[i] for i in cols) and rng.random() < 0.25:
+            for b in range(Bn):
+                for i in cols:
+                    base[b][i] = val
+    if all_band and rng.random() < 0.6:
+        b = rng.randrange(Bn)
+        base[b] = [-INF] * (n // 2) + [INF] * (n // 2)
+    out = []
+    for i, f in enumerate(forms):
+        if not f:
+            out.append(base[0][i])
+            continue
+        shp = tuple(sizes[d] for d in f)
+        arr = np.empty(shp, dtype=float)
+        for idx in np.ndindex(*shp):
+            b = idx[f.index("band")] if "band" in f else 0
+            pert = rng.choice([0.0, 0.5, -0.5]) if any(d in DATA_DIMS for d in f) else 0.0
+            arr[idx] = base[b][i] + pert            # inf + pert = inf
+        out.append(arr.tolist())
+    return out
+
+
+def gen_layout_case(rng, name, mode, profile, end_class=None):
+    """profile "band": at least one end point varies with band; stored orders never conflict on a dimension an end-point array
+    carries.  profile "order": forecasts and observations store their labels in DIFFERENT orders; end points by class
+    (scalar / band arrays / data-dimension arrays in the common order / data-dimension arrays in their own order)."""
+    shape = rng.choice(["rect", "trap"])
+    n = 2 if shape == "rect" else 4
+    Sn, Kn = rng.choice([(2, 3), (3, 2), (2, 2), (2, 4), (3, 3)] + ([(1, 3), (2, 1)] if profile == "band" else []))
+    Bn = rng.choice([2, 3])
+    coords = True if profile == "order" else rng.random() < 0.8
+    sizes = {"s": Sn, "k": Kn, "band": Bn}
+    labels = {d: rng.choice(LABEL_MENU[d])[:sizes[d]] for d in CANON_DIMS}
+    dsub = lambda: rng.choice([["s"], ["k"], ["s", "k"]])
+    if profile == "band":
+        kind = rng.choice(["all-band", "band+scalar", "band+data", "band-x-data", "all-band"])
+        if kind == "all-band":
+            forms = [["band"]] * n
+        elif kind == "band+scalar":
+            forms = [["band"] if rng.random() < 0.5 else [] for _ in range(n)]
+        elif kind == "band+data":
+            forms = [rng.choice([["band"], dsub(), []]) for _ in range(n)]
+        else:
+            forms = [rng.choice([dsub() + ["band"], ["band"], dsub() + ["band"]]) for _ in range(n)]
+        if not any("band" in f for f in forms):
+            forms[rng.randrange(n)] = ["band"]
+        end_class = kind
+    else:
+        if end_class == "scalar":
+            forms = [[]] * n
+        elif end_class == "band":
+            forms = [["band"] if rng.random() < 0.7 else [] for _ in range(n)]
+            forms[rng.randrange(n)] = ["band"]
+        else:
+            # data-dimension arrays along ONE data dimension; forecasts / observations differ on the other one
+            d = rng.choice(DATA_DIMS)
+            forms = [rng.choice([[d], [d], [d, "band"] if d == "k" else [d], []]) for _ in range(n)]
+            forms[rng.randrange(n)] = [d]
+    forms = [[d for d in CANON_DIMS if d in f] for f in forms]
+    ends_v = gen_layout_ends(rng, shape, forms, sizes)
+    pool = [float(v) for e in ends_v for v in np.ravel(np.array(e, dtype=float)) if math.isfinite(v)]
+    huber = rng.choice(HUBERS)
+    fc, ob = gen_data(rng, {"ends": [], "dims": []}, Sn, Kn, nan_p=0.0, extra=pool + [v + s * huber for v in pool[:2] for s in (-1, 1)])
+    # ---- stored orders
+    end_dims = {d for f in forms for d in f}
+    common = {d: lay_perm(rng, sizes[d]) for d in CANON_DIMS}
+    def perms_for(dims, who):
+        out = {}
+        for d in dims:
+            if not coords:
+                out[d] = list(range(sizes[d]))
+            elif profile == "band":
+                # free only on dimensions no end-point array carries
+                out[d] = common[d] if (d in end_dims or rng.random() < 0.5) else lay_perm(rng, sizes[d])
+            elif who == "end":
+                out[d] = lay_perm(rng, sizes[d], nonid=True) if (end_class == "data-conflict" and rng.random() < 0.7) else common[d]
+            elif d in end_dims and end_class != "data-conflict":
+                out[d] = common[d]
+            else:
+                out[d] = common[d] if who == "fcst" else lay_perm_other(rng, common[d])
+        return out
+    def stored(dims):
+        dims = list(dims)
+        rng.shuffle(dims)
+        return dims
+    arr = lambda vals, dims, who: {"dims": stored(dims), "values": nested_map(S, vals), "perm": perms_for(dims, who)}
+    case = {"layout": 1, "function": name, "shape": shape, "alpha": S(rng.choice(ALPHAS)), "huber": S(huber), "coords": coords,
+            "labels": labels, "class": end_class, "profile": profile,
+            "fcst": arr(fc.tolist(), DATA_DIMS, "fcst"), "obs": arr(ob.tolist(), DATA_DIMS, "obs"),
+            "ends": [arr(v, f, "end") if f else {"dims": [], "values": S(v)} for v, f in zip(ends_v, forms)], "mode": mode}
+    if mode == "reduce-list":
+        case["dims_arg"] = rng.choice([["s"], ["k"], ["k", "s"], ["s", "k"]])
+    elif mode == "preserve-list":
+        case["dims_arg"] = rng.choice([["s"], ["k"], ["k", "s"]])
+    return case
+
+
+def lay_perm_other(rng, p):
+    """a stored order different from p (if there are at least two labels)"""
+    q = list(p)
+    if len(q) < 2:
+        return q
+    for _ in range(8):
+        rng.shuffle(q)
+        if q != list(p):
+            return q
+    return q[1:] + q[:1]
+
+
+def oracle_layout(ctx, boost):
+    """(a) band / data-dimension / 2-D / mixed end-point arrays x every tw_* function x every way of naming the dimensions to
+    keep; (b) forecasts, observations and end-point arrays with the same labels in different stored orders and different
+    dimension orders.  Stratified: every (function, mode) and every (function, end-point class) occurs in every run."""
+    rng = ctx.rng
+    rounds = ctx.n(1, 6) * (3 if boost else 1)
+    todo = []
+    for _ in range(rounds):
+        offset = rng.randrange(3)
+        for name in FUNCS:
+            for mode in LAYOUT_MODES:
+                todo.append((LAYOUT_BATCH_BAND, gen_layout_case(rng, name, mode, "band")))
+            classes = list(LAYOUT_END_CLASSES)
+            if not (ctx.thorough or boost):      # quick: scalar end points always, two of the three array classes (rotating)
+                classes.remove(LAYOUT_END_CLASSES[1 + (FUNCS.index(name) + offset) % 3])
+            for cls in classes:
+                mode = "preserve-all" if rng.random() < 0.6 else rng.choice(LAYOUT_MODES)
+                todo.append((LAYOUT_BATCH_ORDER, gen_layout_case(rng, name, mode, "order", cls)))
+    ops, cuts = [], []
+    for _, case in todo:
+        spec, std, one_bands = lay_ops(case)
+        cuts.append((len(spec), len(std), one_bands))
+        ops += spec + std
+    res = core.run_driver("C10spec", ops)
+    k = 0
+    for (batch, case), (ns, nu, one_bands) in zip(todo, cuts):
+        spec_rows, std_rows = res[k:k + ns], res[k + ns:k + ns + nu]
+        k += ns + nu
+        sizes, has_band = lay_sizes(case)
+        ctx.case(batch, case)
+        ctx.tag(f"layout:{case['profile']}:{case['class']}")
+        ctx.tag("layout-mode:" + case["mode"])
+        if has_band:
+            ctx.tag("layout:band-dimension" + ("+weight-one-band" if one_bands else ""))
+        if lay_conflict_dims(case):
+            ctx.tag("layout:end-point-label-order-conflict")
+        if case["coords"] and any(case["fcst"]["perm"][d] != case["obs"]["perm"][d] for d in DATA_DIMS):
+            ctx.tag("layout:fcst-obs-different-stored-order")
+        if case["fcst"]["dims"] != case["obs"]["dims"]:
+            ctx.tag("layout:fcst-obs-different-dim-order")
+        lay_check(ctx, batch, case, spec_rows, std_rows, one_bands)
+
+
+def replay_layout(case):
+    spec, std, one_bands = lay_ops(case)
+    res = core.run_driver("C10spec", spec + std)
+    ctx2 = core.Ctx("C10", "quick", 0)
+    lay_check(ctx2, "replay", case, res[:len(spec)], res[len(spec):], one_bands)
+    # a failure of the listed candidate defect class alone is not a violation of the replayed input
+    return any(f["tags"].get("defect") != LAYOUT_DEFECT for f in ctx2.failures)
+
+
 def oracle(ctx, boost):
     oracle_integral(ctx, boost)
     oracle_murphy(ctx, boost)
@@ -1190,6 +1603,7 @@ def oracle(ctx, boost):
     oracle_dtypes(ctx, boost)
     oracle_consistent_dtypes(ctx, boost)
     oracle_int_range(ctx, boost)
+    oracle_layout(ctx, boost)
 
 
 # ------------------------------------------------------------------------------------------------ replay
@@ -1197,6 +1611,8 @@ def replay(ctx, payload):
     case = payload.get("case") or {}
     sig = payload.get("signature", "")
     ctx2 = core.Ctx("C10", "quick", 0)
+    if case.get("layout"):      # labelled layouts / band end points
+        return replay_layout(case)
     if "x" in case and "ends" in case and "shape" in case:
         ends = [float(core.parse_fl(s)) for s in case["ends"]]
         cfg = {"shape": case["shape"], "ends": ends, "dims": [()] * len(ends), "int_forms": bool(case.get("int_forms", False))}
